@@ -62,6 +62,11 @@ CLAIMS = {
         technique="Kani/CBMC on OrderedQueue::{insert,pop,progress_to,next,new} extracted verbatim against the model BTreeMap: per-call contracts with whole-map frames over arbitrary queue states",
         text="Bounded stand-in, labelled: every method of the reorder buffer is checked against the property's clauses (stale/conflicting writes rejected without changing the buffer, duplicates merged once, only the write at the next expected sequence is handed over, eviction only of the largest key and reported) for ALL keys/next values but at most 3 buffered entries.",
         note="Bounded (entries <= 3, limit <= 3). Not decided: liveness (`eventually answered`), actor mailbox schedules, the async replicate.rs callers. Known finding: progress_to leaves entries below next."),
+    "C13": dict(
+        category="other", design_ref="§4 C13 / U08",
+        technique="Kani/CBMC executing AppConfig::{assigned_buckets,assigned_partitions,node_count} and TopologyManager::calculate_assigned_partitions (both extracted verbatim, model HashSet) on concrete validated configurations, every node index; the topology side is proved for all sizes under C14",
+        text="Bounded stand-in (exhaustive over node index for 19 listed small configurations: N <= 3, buckets <= 6, partitions <= 6): the buckets a node opens are exactly the buckets whose replica set (b % N + k, k < rf) contains it, and the partitions it stores are exactly those the topology assigns to it. Holds for single-node, full-replication and B <= N configurations; the partial-replication family is the open known finding.",
+        note="Bounded to the listed configurations (a symbolic node count / index does not come back from CBMC: 64-bit modulo). Explicit bucket.ids / partition.ids overrides are out of scope (they bypass the computation). Known finding KF-C13-contiguous-vs-modulo: contiguous ranges vs. bucket % N disagree whenever rf < N and B > N."),
     "C14": dict(
         category="proof", design_ref="§4 C13/C14, U07",
         technique="Verus unbounded proof on calculate_partition_replicas (exact: known members of replica_nodes(b,N,rf) in offset order; distinctness/length lemmas over the spec) and on the bucket-selection loops of calculate_assigned_partitions, both extracted verbatim",
@@ -92,7 +97,6 @@ CLAIMS = {
 NOT_APPLICABLE = {
     "C02": "not decided in this build: the Kani harness for WriterSet::validate_event_versions (units/U12, real text against the model HashMap) runs CBMC out of memory even at 2 events / 3 streams, Verus rejects its hash_map::Entry matching, and handle_write needs the whole writer environment; the partition-sequence half (validate_partition_sequence == accepts == is_satisfied_by) is proved under C25 (DESIGN A.3)",
     "C07": "not decided in this build: the watermark gates sit inside async actor handlers (slices R4/R5 not built); only AtomicWatermark::can_read(s) == (s < get()) is under contract, reported under C08 (DESIGN A.3)",
-    "C13": "not decided in this build: Kani does not return on the 64-bit symbolic modulo of the placement functions (> 20 min even for N <= 3) and a Verus contract relating AppConfig::assigned_buckets (contiguous ranges) to the topology (bucket % N) was not built; the mismatch is listed as a candidate in DESIGN §10/A.5, not as a finding of a check",
     "C22": "not decided in this build: the response-construction slices of the async request handlers (R4/R5) were not built (DESIGN A.3)",
     "C06": "crash between sealing a segment and the background index flush: recovery of a missing/short index is not a function of the code base (DatabaseBuilder::open propagates the error), runs across a rayon pool; no contract on an existing function expresses it (DESIGN §9)",
     "C10": "cross-node agreement under message loss/reordering/crash schedules of async actors: protocol-level inductive invariant, out of reach of per-function contracts (Verus has no async, Kani no threads/network); sequential building blocks are covered under C02/C08/C12 (DESIGN §9)",
